@@ -127,6 +127,16 @@ def pullFills {ρ} (step : ρ → Nat → Out Bytes × ρ) : Nat → ρ → Byte
     | (.err e, r') => (acc, some e, false, r')
     | (.panic _, r') => (acc, none, true, r')
 
+/-- The consumer APIs of the `aes.read` op. `loop` is the explicit `read` loop; `rte` (`read_to_end`),
+`copy` (`io::copy`), `bytes` (the `bytes()` iterator) are std's provided loops over `ZipFile::read` and
+reach the verdict of the loop; `exact` is `read_exact` of the declared size followed by a probe loop:
+an error of the loop is its error, a clean end-of-file short of the declared size is `UnexpectedEof`. -/
+def apiKnown (api : String) : Bool := ["loop", "rte", "copy", "exact", "bytes"].contains api
+
+def apiOk (api : String) (usize : Nat) (out : Bytes) : String :=
+  if api == "exact" ∧ out.length < usize then "open=ok file=ok read=err io:eof"
+  else s!"open=ok file=ok read=ok len={out.length} h={(fnv64 out).toNat}"
+
 def opAes (op : String) (a : Args) : Option String := do
   match op with
   | "aes.ctr" =>
@@ -174,6 +184,9 @@ def opAes (op : String) (a : Args) : Option String := do
     let t ← getTables a
     let bufs ← natList? (← a.get? "bufs")
     if bufs.all (· == 0) then some "bad-op" else
+    let api := (a.get? "api").getD "loop"
+    let usize ← a.nat? "usize"
+    if !apiKnown api ∨ (api == "exact" ∧ usize > 16777216) then some "bad-op" else
     if layout == "norm" ∧ csize32 > body.length then some "bad-op" else
     match ← parseEntry a with
     | .err e => some s!"open={Out.className e}"
@@ -206,6 +219,11 @@ def opAes (op : String) (a : Args) : Option String := do
               entryRead P listSrc storedDec false crcUpd crcFin r n
             let (_, out, er, pan, r) := callerLoop step (fuelFor body.length bufs) bufs bufs ⟨(), v, c0⟩ [] []
             if pan then some "open=ok file=ok read=panic" else
+            if api != "loop" then
+              match er with
+              | some er => some s!"open=ok file=ok read={Out.className er}"
+              | none => some (apiOk api usize out)
+            else
             let ag := againStr step r
             match er with
             | some er => some s!"open=ok file=ok read={Out.className er} after={out.length} again={ag}"
@@ -240,7 +258,7 @@ def opAes (op : String) (a : Args) : Option String := do
                 else match (finishCrypto P listSrc true v1).1 with
                   | .err er => some s!"open=ok file=ok read={Out.className er}"
                   | .panic _ => some "open=ok file=ok read=panic"
-                  | .ok _ => some s!"open=ok file=ok read=ok len={zout.length} h={(fnv64 zout).toNat}"
+                  | .ok _ => some (apiOk api usize zout)
               else some "open=ok file=ok read=unknown-inflate"
           | _ => some "open=ok file=ok read=unmodelled"
   | _ => none
